@@ -315,9 +315,13 @@ def generic_strategy():
             # ('Hex2HexNAc1Hex3' spells five hexoses)
             items = draw(st.lists(st.tuples(st.sampled_from(['Hex', 'HexNAc', 'Fuc', 'NeuAc', 'Neu5Gc', 'dHex', 'Pent', 'HexA', 'Sulf',
                                                              'Phospho', 'Kdn', 'Me', 'Ac', 'Neu', 'HexN', 'HexS']),
-                                            st.integers(1, 9)), min_size=1, max_size=4))
+                                            st.one_of(st.integers(1, 9), st.integers(1, 9),
+                                                      st.sampled_from([0.5, 2.25, 12.9, 0.1, 0.2, -0.3, -4.3, 0.00001, -1, 0.3, -0.1, -0.2]))),
+                                  min_size=1, max_size=4))
             case['glycan'] = [list(x) for x in items]
-            case['text'] = draw(st.sampled_from(['Glycan', 'glycan', 'GLYCAN'])) + ':' + ''.join(f'{a}{b}' for a, b in items)
+            from decimal import Decimal
+            case['text'] = draw(st.sampled_from(['Glycan', 'glycan', 'GLYCAN'])) + ':' + \
+                ''.join(f'{a}{format(Decimal(repr(b)), "f")}' for a, b in items)
         else:
             case['text'] = draw(st.sampled_from(names))
         case['deco'] = {'tag': draw(st.one_of(st.just(''), st.just(''), gen.tag_text())),
